@@ -166,6 +166,34 @@ def run_iban(shard, mon, S):
                         mon.tally("generate_variants_blank_component")
                         if om.ok != ob_.ok or (om.ok and str(om.value) != str(ob_.value)):
                             mon.viol("generate:blank_component_differs_from_empty", {"country": cc, "bank_code": merged, "branch_code": esc(blank)}, om.brief(), ob_.brief())
+                # neighbouring fields written into one component (branch + account as the account code, bank + branch
+                # + account as the bank code, ...), and the components read off a parsed IBAN fed back to
+                # from_components including its national check digits: decoration changes nothing either
+                shapes = []
+                if comp.get("branch_code"):
+                    shapes.append({"bank_code": comp["bank_code"], "account_code": comp["branch_code"] + comp["account_code"], "branch_code": ""})
+                    shapes.append({"bank_code": comp["bank_code"] + comp["branch_code"] + comp["account_code"], "account_code": "", "branch_code": ""})
+                shapes.append({"bank_code": comp["bank_code"], "account_code": comp["bank_code"] + comp["account_code"], "branch_code": comp.get("branch_code", "")})
+                for sh_ in shapes:
+                    o0 = observe(S.IBAN.generate, cc, **sh_)
+                    for _ in range(3):
+                        v_ = {k: (rng.choice(gen.decorate(x, rng)) if x else x) for k, x in sh_.items()}
+                        o1 = observe(S.IBAN.generate, cc, **v_)
+                        mon.ev()
+                        mon.tally("generate_variants_joined_fields")
+                        if o0.ok != o1.ok or (o0.ok and str(o0.value) != str(o1.value)):
+                            mon.viol("generate:decoration_of_components_changes_outcome", {"country": cc, "components": sh_, "variant": {k: esc(x) for k, x in v_.items()}}, o0.brief(), o1.brief())
+                ob0 = observe(S.IBAN, b)
+                if ob0.ok:
+                    full = {k: getattr(ob0.value, k) for k in ("bank_code", "branch_code", "account_code", "national_checksum_digits", "account_type", "account_id", "currency_code") if getattr(ob0.value, k, "")}
+                    f0 = observe(S.BBAN.from_components, cc, **full)
+                    for _ in range(4):
+                        v_ = {k: rng.choice(gen.decorate(x, rng)[:12] + [x.lower(), " " + x, x + "\n"]) for k, x in full.items()}
+                        f1 = observe(S.BBAN.from_components, cc, **v_)
+                        mon.ev()
+                        mon.tally("from_components_variants_of_parsed_components")
+                        if f0.ok != f1.ok or (f0.ok and str(f0.value) != str(f1.value)):
+                            mon.viol("from_components:decoration_of_components_changes_outcome", {"country": cc, "components": full, "variant": {k: esc(x) for k, x in v_.items()}}, f0.brief(), f1.brief())
                 for _ in range(3):
                     var = {k: rng.choice(gen.decorate(v, rng)) if v else v for k, v in comp.items()}
                     ov = observe(S.IBAN.generate, cc, bank_code=var["bank_code"], account_code=var["account_code"], branch_code=var.get("branch_code", ""))
